@@ -87,10 +87,40 @@ def healthy(ctx, n, nsteps):
     ctx.layer("L4-validate-histories", agreed, total)
 
 
+def big_blocks(ctx):
+    """Blocks as large as the writer legitimately makes them: more than the block size of small files combined into one
+    block (the combiner cuts a block only AFTER it has passed the limit), and files cut at exactly the limit.  Healthy:
+    validation, full and quick, must be silent."""
+    cases = []
+    for t, (count, size) in enumerate([(30, 900 * 1024), (3, (8 << 20) + 12345)]):
+        cases.append({"id": f"big{t}", "steps": [{"op": "init"}, {"op": "mkfiles", "dir": "src", "count": count, "size": size, "seed": ctx.seed + t},
+                                                {"op": "backup", "opts": {}}, {"op": "validate"}, {"op": "validate", "skip": True}]})
+    res = ctx.cvh_run(cases, timeout=1200)
+    for c in cases:
+        r = res.get(c["id"])
+        ctx.count()
+        small = {"steps": c["steps"]}
+        if r is None or any(isinstance(x, dict) and (x.get("panic") or x.get("timeout")) for x in r):
+            ctx.oracle_fail("validate/panic", "backup or validation of large blocks crashed or hung", small)
+            continue
+        if r[2].get("result") != "ok" or r[2].get("monitor_errors"):
+            ctx.oracle_fail("validate/backup-failed", "the backup of large files failed: " + json.dumps(r[2].get("err") or r[2].get("monitor_errors"))[:200], small)
+            continue
+        for what, v in (("full", r[3]), ("quick", r[4])):
+            if v.get("result") != "ok" or damage.errs(v):
+                ctx.oracle_fail("validate/false-alarm", f"{what} validation of a healthy archive holding blocks of the largest size the writer makes reports "
+                                                        f"{json.dumps(v.get('monitor_errors') or v.get('err'))[:240]}", small)
+                break
+        else:
+            ctx.dist("healthy_large_block_archives")
+            ctx.nontrivial("big:" + c["id"])
+
+
 def run(ctx):
     quick = ctx.tier == "quick"
+    big_blocks(ctx)
     ctx.cov["rule"] = ("healthy side: random histories (backups incl. killed ones, deletes, gc) with validate full/quick after every mutating "
-                       "operation: zero errors expected (+ exact L4 trace correspondence of validate_prog); damage side: every archive file x {delete, "
+                       "operation: zero errors expected (+ exact L4 trace correspondence of validate_prog), + archives holding blocks of the largest size the writer makes (over 20 MiB of small files combined, files cut at the limit); damage side: every archive file x {delete, "
                        "truncate 0, truncate half, garbage} + bit flips in blocks: if any version no longer restores exactly, full validate must "
                        "report >= 1 error (quick validate for missing files). non-trivial = damage that changes some restore")
     healthy(ctx, 10 if quick else 300, 6 if quick else 14)
